@@ -265,7 +265,7 @@ def execute(case, scratch):
                 out.violation("call_batch([memoized k, new k']) returned %s; the new element computes 'fresh-element'" % _r(got), symptom="batch-new-element-wrong")
             elif is_exc:
                 want_msg = "fixed text" if spec["exc"] == "NoArgErr" else (spec["msg"] + "/second" if spec["exc"] == "TwoArgErr" else spec["msg"])
-                if not isinstance(got[0], Exception) or want_msg not in str(got[0]):
+                if not isinstance(got[0], Exception) or not _has_msg(got[0], want_msg):
                     out.violation("call_batch slot of the memoized exception holds %s" % _r(got[0]), symptom="batch-memoized-element-wrong")
             elif not _equal(got[0], reference):
                 out.violation("call_batch slot of the memoized element holds %s, the body computed %s" % (_r(got[0]), _r(reference)), symptom="batch-memoized-element-wrong")
@@ -280,9 +280,25 @@ def execute(case, scratch):
                 out.violation("after forget(k) the call ran %d times" % len(runs_k), symptom="forget-ineffective")
             if runs_other:
                 out.violation("forget(k) made another memoized call run again", symptom="forget-overreach")
-            attempt("after forget 2")
+            held = attempt("after forget 2")   # (kept: the caller still holds this value during what follows)
             if [r for r in rt.take() if r[0] == "val"] and not (is_exc and spec["exc"] == "NotMemoized"):
                 out.violation("after forget and recompute the result is not memoized again", symptom="not-rememoized")
+            # forget every call of the function at once: both calls run again exactly once, then are memoized again
+            if not out.violations:
+                fn.forget_all()
+                again = attempt("after forget_all")
+                runs_k = [r for r in rt.take() if r[0] == "val"]
+                fn(k_other)
+                runs_other = [r for r in rt.take() if r[0] == "val"]
+                if len(runs_k) != 1 or len(runs_other) != 1:
+                    out.violation("after forget_all() the call ran %d times and the other call of the function %d times (expected 1 and 1)" % (
+                        len(runs_k), len(runs_other)), symptom="forget-all-ineffective")
+                _check_result(out, case, spec, reference, again[0], again[1], "after forget_all", results[0], ran=True)
+                again2 = attempt("after forget_all 2")
+                if [r for r in rt.take() if r[0] == "val"]:
+                    out.violation("after forget_all and recompute the result is not memoized again", symptom="not-rememoized")
+                _check_result(out, case, spec, reference, again2[0], again2[1], "after forget_all 2", results[0])
+                del held
         return _fin(out, case)
     except Exception as e:
         sig = lib_exception_signature(e)
@@ -295,7 +311,7 @@ def execute(case, scratch):
         env.rm(d)
 
 
-def _check_result(out, case, spec, reference, kind, res, which, first):
+def _check_result(out, case, spec, reference, kind, res, which, first, ran=False):
     is_exc = "exc" in spec
     if is_exc:
         if kind != "exc":
@@ -305,7 +321,7 @@ def _check_result(out, case, spec, reference, kind, res, which, first):
         msg = spec["msg"] if name not in ("NoArgErr",) else "fixed text"
         if name == "TwoArgErr":
             msg = spec["msg"] + "/second"
-        first_call = which == 1
+        first_call = which == 1 or ran   # the body itself raised (not a replay of the record)
         if name == "LazyErr":
             ok_class = type(res).__module__ == "vlib.lazyerrs" and type(res).__qualname__ == "LazyErr"
         elif name in tfuncs.REBUILDABLE and name not in ("ValueError", "KeyError", "ZeroDivisionError"):
@@ -319,7 +335,7 @@ def _check_result(out, case, spec, reference, kind, res, which, first):
         if not ok_class:
             out.violation("call %s raised %s(%s) for a recorded %s" % (which, type(res).__name__, str(res)[:120], name),
                           symptom="exception-class", exc=name)
-        if msg not in str(res):
+        if not _has_msg(res, msg):
             out.violation("call %s: original message %r not contained in %r" % (which, msg, str(res)[:200]),
                           symptom="exception-message", exc=name)
         return
@@ -337,6 +353,12 @@ def _check_result(out, case, spec, reference, kind, res, which, first):
     elif not _same_kind(res, reference):
         out.violation("call %s returned a %s for a %s" % (which, type(res).__name__, type(reference).__name__),
                       symptom="type-differs")
+
+
+def _has_msg(exc, msg):
+    """the original message is part of the exception's text (str(KeyError(m)) is repr(m), which escapes unprintable characters)"""
+    texts = [str(exc)] + [a for a in getattr(exc, "args", ()) if isinstance(a, str)]
+    return any(msg in t or repr(msg)[1:-1] in t for t in texts)
 
 
 def _r(v):
@@ -365,7 +387,7 @@ def replay(case, ctx):
 def strategy():
     from hypothesis import strategies as st
     S = values.strategies()
-    msg = st.text(alphabet="abcdefghij XYZ0123456789.,:;-_()é", min_size=0, max_size=20)
+    msg = st.text(alphabet="abcdefghij XYZ0123456789.,:;-_()é\udce9", min_size=0, max_size=20)
     exc = st.builds(lambda k, mm: {"exc": k, "msg": mm},
                     st.sampled_from(["ValueError", "KeyError", "ZeroDivisionError", "CustomErr", "TwoArgErr", "NoArgErr", "LocalErr", "NotMemoized", "NestedErr", "DeepErr", "LazyErr"]), msg)
     big = st.sampled_from([{"t": "str", "n": 3000, "c": "b"}, {"t": "bytes", "n": 5000, "c": "ab"},
